@@ -56,10 +56,9 @@ func main() {
 		},
 	)
 	if err != nil {
-		if *strict {
-			log.Fatal(err)
-		}
-		fmt.Fprintln(os.Stderr, "warning:", err)
+		// Warnings are printed by Compile and only turn into an error with
+		// -strict; anything that arrives here is a real failure.
+		log.Fatal(err)
 	}
 }
 
